@@ -1,5 +1,6 @@
 From Coq Require Import List NArith Bool Sorted.
-From V.Ts Require Import Model Proofs Answers.
+From V.gen Require Consts.
+From V.Ts Require Import Model Proofs Answers Report ReportProofs.
 Import ListNotations.
 Open Scope N_scope.
 From V.C08 Require Import Properties.
@@ -54,6 +55,34 @@ Check (C08_open_answered :
   (count_occ N.eq_dec (ans_ids (concat (run (init ka T n0) tr))) id <= 1)%nat /\
   (count_occ N.eq_dec (ans_ids (concat (run (init ka T n0) tr))) id = 1%nat \/
    exists dt p, In (dt, EClosed p c) tr)).
+Check (C08_report_no_loss :
+  forall l nproto cap p ch,
+  nth_error (r_ch (rfinal (rinit nproto cap) l)) p = Some ch ->
+  got_all p l (rrun (rinit nproto cap) l) ++ rq ch ++ map snd (rw ch) =
+  sent_all p l (rrun (rinit nproto cap) l)).
+Check (C08_report_channel_invariant :
+  forall l nproto cap, rinv (rfinal (rinit nproto cap) l)).
+Check (C08_report_delivered :
+  forall rl nproto cap p,
+  (1 <= cap)%nat -> (p < nproto)%nat ->
+  let n := backlog_p (rfinal (rinit nproto cap) rl) p in
+  let rl' := rl ++ repeat (RDrain (N.of_nat p) 1) n in
+  got_all p rl' (rrun (rinit nproto cap) rl') = sent_all p rl (rrun (rinit nproto cap) rl)).
+Check (C08_report_default_capacity :
+  (1 <= N.to_nat V.gen.Consts.DEFAULT_CHANNEL_SIZE)%nat).
+Check (C08_answer_event_resolves :
+  forall tr1 dt a tr2 ka T n0 c id,
+  In (OCmd c id) (concat (run (init ka T n0) tr1)) ->
+  (exists m, a = ESubOut id m) \/ a = ESubFail id ->
+  pfind id (s_pend (final (init ka T n0) (tr1 ++ (dt, a) :: tr2))) = None).
+Check (C08_open_answered_when_delivered :
+  forall tr1 dt a tr2 ka T n0 c id,
+  In (OCmd c id) (concat (run (init ka T n0) tr1)) ->
+  (exists m, a = ESubOut id m) \/ a = ESubFail id ->
+  let tr := tr1 ++ (dt, a) :: tr2 in
+  (count_occ N.eq_dec (ans_ids (concat (run (init ka T n0) tr))) id <= 1)%nat /\
+  (count_occ N.eq_dec (ans_ids (concat (run (init ka T n0) tr))) id = 1%nat \/
+   exists dt' p, In (dt', EClosed p c) tr)).
 Check (C08_needs_two_per_peer :
   exists tr q,
   feasible 3 env0 (init true 1000 0) tr = true /\
